@@ -17,6 +17,8 @@ def key(e):
 
 def run(ctx):
     ctx.build("h-programs", "c15")
+    if ctx.replay_file:
+        ctx.note("replay: the recorded case lies inside the finite domain of this check, which is re-executed as a whole")
     # 1. the design: every (state, operation) pair of the bounded domain satisfies the monitors
     ctx.model_check("MC_Pool", cfg="MC_Pool" if ctx.quick else "MC_Pool_thorough", workers=8, timeout=1500,
                     expect_actions=["DoLong", "DoShort", "DoBoth", "DoCancel"])
@@ -39,7 +41,7 @@ def run(ctx):
             ctx.report(classify(e, f["mon"]), {"driver": "h-programs c15 " + mode, "event": e})
     # 3. wide tier: u128 totals up to 2^128-1, deltas at +-2^127 (Apalache, unbounded integers)
     wp = ctx.path("wide.ndjson")
-    ctx.run_bin("c15", ["wide", "--seed", ctx.seed, "--n", 60 if ctx.quick else 600, "--out", wp])
+    ctx.run_bin("c15", ["wide", "--seed", ctx.seed, "--n", 60 if ctx.quick else 400, "--out", wp])
     wev = vlib.read_ndjson(wp)
     res = vlib.apalache_events(ctx, "Wide_Pool", ["Pool", "PoolProps"], wev, SCHEMA, "CInit128",
                                ["bad", "drift"], chunk=100 if ctx.quick else 200)
